@@ -82,10 +82,18 @@ def run(ctx, n_override=None):
                 if cands:
                     q = rng.choice(cands)
                     q.amt, q.cost = None, None                # a second elided amount
-            elif r < 0.84:
+            elif r < 0.80:
                 s = rng.choice(list(X.COMMS))                  # a lone posting
                 a = X.Amt.rand(rng, s)
+                if rng.random() < 0.15:
+                    a = X.Amt(0, X.COMMS[s][1], s)              # a literal zero still gets its bucket posting
                 x = X.Xact([X.Post(X.acct_of(rng, 'R'), 'R', a if rng.random() < 0.7 else a.neg())])
+            elif r < 0.84:
+                # a lone posting whose cost is in a commodity nothing has displayed yet: display-zero, not zero
+                g = X.gen_cost_only(rng, nother=0)
+                x = X.Xact([p for p in g.posts if p.amt is not None])
+            elif r < 0.87:
+                x = X.gen_cost_only(rng)
             elif r < 0.9:
                 x = X.Xact([X.Post('Null:Assets:Cash', 'R', None), X.Post('V:Expenses:Food', 'V', X.Amt.rand(rng, '$'))])
             else:
